@@ -14,6 +14,7 @@ def Prog.names : Prog → List String
   | .hang => []
   | .work _ k => k.names
   | .call t name body k => (if t = 0 then [] else [name]) ++ (body.names ++ k.names)
+  | .spawn body k => body.names ++ k.names
 
 /-- no call inside the program arms a timeout -/
 def Prog.unarmed : Prog → Bool
@@ -22,6 +23,16 @@ def Prog.unarmed : Prog → Bool
   | .hang => true
   | .work _ k => k.unarmed
   | .call t _ body k => t == 0 && body.unarmed && k.unarmed
+  | .spawn _ _ => false
+
+/-- no task is started other than by `wait_for` -/
+def Prog.spawnFree : Prog → Bool
+  | .ret => true
+  | .raise => true
+  | .hang => true
+  | .work _ k => k.spawnFree
+  | .call _ _ body k => body.spawnFree && k.spawnFree
+  | .spawn _ _ => false
 
 /-! ### option times -/
 
@@ -172,6 +183,10 @@ theorem runS_keeps (cfg : Cfg) : ∀ prog : Prog, KeepsHandler (runS cfg prog) :
     have := seqS_keeps _ _ (wrapS_keeps t name _ ihb) ihk
     intro p q o h
     exact this p q o (by simpa [runS] using h)
+  | spawn body k ihb ihk =>
+    have := seqS_keeps _ _ ihb ihk
+    intro p q o h
+    exact this p q o (by simpa [runS] using h)
 
 theorem runS_timer (cfg : Cfg) : ∀ prog : Prog, TimerNoneOrSame (runS cfg prog) := by
   intro prog
@@ -212,6 +227,10 @@ theorem runS_timer (cfg : Cfg) : ∀ prog : Prog, TimerNoneOrSame (runS cfg prog
         · exact Or.inr (by simpa using h1)
   | call t name body k ihb ihk =>
     have := seqS_timer _ _ (wrapS_timer t name _ ihb) ihk
+    intro p q o h
+    exact this p q o (by simpa [runS] using h)
+  | spawn body k ihb ihk =>
+    have := seqS_timer _ _ ihb ihk
     intro p q o h
     exact this p q o (by simpa [runS] using h)
 
@@ -303,6 +322,13 @@ theorem runS_closes (cfg : Cfg) (S : List String) : ∀ prog : Prog, (∀ n ∈ 
       (wrapS_keeps t name _ (runS_keeps cfg body)) (wrapS_timer t name _ (runS_timer cfg body))
     intro p q o harm h
     exact this p q o harm (by simpa [runS] using h)
+  | spawn body k ihb ihk =>
+    intro hS
+    have hSb : ∀ n ∈ body.names, n ∈ S := fun n hn => hS n (by simp [Prog.names, hn])
+    have hSk : ∀ n ∈ k.names, n ∈ S := fun n hn => hS n (by simp [Prog.names, hn])
+    have := seqS_closes cfg S _ _ (ihb hSb) (ihk hSk) (runS_keeps cfg body) (runS_timer cfg body)
+    intro p q o harm h
+    exact this p q o harm (by simpa [runS] using h)
 
 /-- a program that arms nothing, run while a scrapli timer `D` is armed: it is over by `D`; either the
     timer fired (exactly at `D`) or it is still armed -/
@@ -350,6 +376,7 @@ theorem runS_unarmed (cfg : Cfg) (m : String) (D : Nat) : ∀ (prog : Prog) (p :
       | timeout msg => simp [Out.isTimeout] at ho
       | error => exact ⟨q, .error, by simp [runS, wrapS, seqS, ht0, h1], h2, Or.inr ⟨rfl, hqt⟩⟩
       | cancelled => exact ⟨q, .cancelled, by simp [runS, wrapS, seqS, ht0, h1], h2, Or.inr ⟨rfl, hqt⟩⟩
+  | spawn body k _ _ => intro p hu; simp [Prog.unarmed] at hu
 
 /-! ### worker-thread mechanism -/
 
@@ -417,6 +444,10 @@ theorem runT_finGe (cfg : Cfg) : ∀ prog : Prog, FinGe (runT cfg prog) := by
         · simp [hC, hw] at h; have := ih _ _ _ h; omega
   | call t name body k ihb ihk =>
     have := seqT_finGe _ _ (poolT_finGe cfg t name _ ihb) ihk
+    intro s ext f h
+    exact this s ext f (by simpa [runT] using h)
+  | spawn body k ihb ihk =>
+    have := seqT_finGe _ _ ihb ihk
     intro s ext f h
     exact this s ext f (by simpa [runT] using h)
 
@@ -492,6 +523,10 @@ theorem runT_joined (cfg : Cfg) : ∀ prog : Prog, Joined (runT cfg prog) := by
     have := seqT_joined _ _ (poolT_joined cfg t name _ ihb) ihk (runT_finGe cfg k)
     intro s ext f h a ha
     exact this s ext f (by simpa [runT] using h) a (by simpa [runT] using ha)
+  | spawn body k ihb ihk =>
+    have := seqT_joined _ _ ihb ihk (runT_finGe cfg k)
+    intro s ext f h a ha
+    exact this s ext f (by simpa [runT] using h) a (by simpa [runT] using ha)
 
 theorem poolT_closes (cfg : Cfg) (S : List String) (t : Nat) (name : String) (g : TFun)
     (hn : t ≠ 0 → name ∈ S) (hg : ClosesT cfg S g) : ClosesT cfg S (poolT cfg t name g) := by
@@ -553,6 +588,13 @@ theorem runT_closes (cfg : Cfg) (S : List String) : ∀ prog : Prog, (∀ n ∈ 
     have := seqT_closes cfg S _ _ (poolT_closes cfg S t name _ hname (ihb hSb)) (ihk hSk)
     intro s ext
     simpa [runT] using this s ext
+  | spawn body k ihb ihk =>
+    intro hS
+    have hSb : ∀ n ∈ body.names, n ∈ S := fun n hn => hS n (by simp [Prog.names, hn])
+    have hSk : ∀ n ∈ k.names, n ∈ S := fun n hn => hS n (by simp [Prog.names, hn])
+    have := seqT_closes cfg S _ _ (ihb hSb) (ihk hSk)
+    intro s ext
+    simpa [runT] using this s ext
 
 theorem poolT_wake (cfg : Cfg) (t : Nat) (name : String) (g : TFun) (hg : WakeBound g) :
     WakeBound (poolT cfg t name g) := by
@@ -610,6 +652,10 @@ theorem runT_wake (cfg : Cfg) (hw : cfg.closeWakes = true) : ∀ prog : Prog, Wa
     have := seqT_wake _ _ (poolT_wake cfg t name _ ihb) ihk
     intro s C
     simpa [runT] using this s C
+  | spawn body k ihb ihk =>
+    have := seqT_wake _ _ ihb ihk
+    intro s C
+    simpa [runT] using this s C
 
 /-! ### asyncio mechanism -/
 
@@ -648,6 +694,17 @@ theorem seqA_bound (a : AFun) (k : Nat → Option Nat → Bool → ARes) (ha : C
     exact ⟨f1, h1, by omega⟩
   · exact ⟨f0, h0, hb0⟩
 
+/-- the waiter of a spawned task is over by the cancellation whatever the task does -/
+theorem spawnA_bound (g : AFun) : CancelBound (spawnA g) := by
+  intro s C c
+  simp only [spawnA]
+  split
+  · rename_i hd
+    cases hf : (g s none c).fin with
+    | none => rw [hf] at hd; simp at hd
+    | some x => rw [hf] at hd; simp at hd; exact ⟨x, rfl, by omega⟩
+  · exact ⟨max C s, rfl, Nat.le_refl _⟩
+
 theorem runA_bound (cfg : Cfg) : ∀ prog : Prog, CancelBound (runA cfg prog) := by
   intro prog
   induction prog with
@@ -663,6 +720,10 @@ theorem runA_bound (cfg : Cfg) : ∀ prog : Prog, CancelBound (runA cfg prog) :=
       exact ⟨f, by simp [hd]; exact h1, by omega⟩
   | call t name body k ihb ihk =>
     have := seqA_bound _ _ (waitForA_bound cfg t name _ ihb) ihk
+    intro s C c
+    simpa [runA] using this s C c
+  | spawn body k _ ihk =>
+    have := seqA_bound _ _ (spawnA_bound (runA cfg body)) ihk
     intro s C c
     simpa [runA] using this s C c
 
@@ -681,6 +742,16 @@ theorem waitForA_closes (cfg : Cfg) (S : List String) (t : Nat) (name : String) 
       simp [handleTimeout, Out.isTimeout, hcl]
       exact ⟨name, hn ht, rfl⟩
     · exact hr
+
+theorem spawnA_closes (cfg : Cfg) (S : List String) (g : AFun) (hg : ClosesA cfg S g) : ClosesA cfg S (spawnA g) := by
+  intro s ca c
+  have hr := hg s none c
+  simp only [spawnA]
+  split
+  · split
+    · exact hr
+    · simp [Out.isTimeout]
+  · exact hr
 
 theorem seqA_closes (cfg : Cfg) (S : List String) (a : AFun) (k : Nat → Option Nat → Bool → ARes)
     (ha : ClosesA cfg S a) (hk : ClosesA cfg S k) :
@@ -716,6 +787,13 @@ theorem runA_closes (cfg : Cfg) (S : List String) : ∀ prog : Prog, (∀ n ∈ 
     have hSk : ∀ n ∈ k.names, n ∈ S := fun n hn => hS n (by simp [Prog.names, hn])
     have hname : t ≠ 0 → name ∈ S := fun ht => hS name (by simp [Prog.names, ht])
     have := seqA_closes cfg S _ _ (waitForA_closes cfg S t name _ hname (ihb hSb)) (ihk hSk)
+    intro s ca c
+    simpa [runA] using this s ca c
+  | spawn body k ihb ihk =>
+    intro hS
+    have hSb : ∀ n ∈ body.names, n ∈ S := fun n hn => hS n (by simp [Prog.names, hn])
+    have hSk : ∀ n ∈ k.names, n ∈ S := fun n hn => hS n (by simp [Prog.names, hn])
+    have := seqA_closes cfg S _ _ (spawnA_closes cfg S _ (ihb hSb)) (ihk hSk)
     intro s ca c
     simpa [runA] using this s ca c
 
@@ -772,6 +850,7 @@ theorem runT_unarmed_acts (cfg : Cfg) : ∀ (prog : Prog) (s : Nat) (ext : Optio
     rcases seqT_cases (runT cfg body s ext) (runT cfg k) ext with ⟨e, _, _, heq⟩ | heq
     · rw [heq]; simp [ihb s ext hub, ihk _ _ huk]
     · rw [heq]; exact ihb s ext hub
+  | spawn body k _ _ => intro s ext hu; simp [Prog.unarmed] at hu
 
 theorem unarmed_names : ∀ prog : Prog, prog.unarmed = true → prog.names = [] := by
   intro prog
@@ -784,6 +863,7 @@ theorem unarmed_names : ∀ prog : Prog, prog.unarmed = true → prog.names = []
     intro hu
     simp [Prog.unarmed] at hu
     simp [Prog.names, hu.1.1, ihb hu.1.2, ihk hu.2]
+  | spawn body k _ _ => intro hu; simp [Prog.unarmed] at hu
 
 /-! ### a decorated call on its own -/
 
@@ -813,5 +893,165 @@ theorem run_signal_none (cfg : Cfg) (prog : Prog) (p : Proc) (h : runS cfg prog 
     run cfg .signal prog p = { fin := none, out := .error, closed := p.closed, handler := p.handler, timer := p.timer }
     ∧ run cfg .direct prog p = { fin := none, out := .error, closed := p.closed, handler := p.handler, timer := p.timer } := by
   simp [run, h]
+
+/-! ### asyncio: tasks -/
+
+def FinGeA (g : AFun) : Prop := ∀ s ca c f, (g s ca c).fin = some f → s ≤ f
+
+/-- when the call is over, every task created in its tree is over -/
+def JoinedA (g : AFun) : Prop :=
+  ∀ s ca c f, (g s ca c).fin = some f → ∀ a ∈ (g s ca c).tasks, ∃ e, a.stop = some e ∧ e ≤ f
+
+theorem waitForA_tasks (cfg : Cfg) (t : Nat) (name : String) (g : AFun) (s : Nat) (ca : Option Nat) (c : Bool)
+    (ht : t ≠ 0) : (waitForA cfg t name g s ca c).tasks =
+      ⟨s, (g s (omin ca (some (s + t))) c).fin, name⟩ :: (g s (omin ca (some (s + t))) c).tasks := by
+  simp only [waitForA, ht, ↓reduceIte]
+  split <;> rfl
+
+theorem waitForA_finGe (cfg : Cfg) (t : Nat) (name : String) (g : AFun) (hg : FinGeA g) : FinGeA (waitForA cfg t name g) := by
+  intro s ca c f h
+  by_cases ht : t = 0
+  · simp only [waitForA, ht, ↓reduceIte] at h; exact hg _ _ _ _ h
+  · rw [waitForA_fin cfg t name g s ca c ht] at h; exact hg _ _ _ _ h
+
+theorem waitForA_joined (cfg : Cfg) (t : Nat) (name : String) (g : AFun) (hg : JoinedA g) : JoinedA (waitForA cfg t name g) := by
+  intro s ca c f h a ha
+  by_cases ht : t = 0
+  · simp only [waitForA, ht, ↓reduceIte] at h ha; exact hg _ _ _ _ h a ha
+  · rw [waitForA_fin cfg t name g s ca c ht] at h
+    rw [waitForA_tasks cfg t name g s ca c ht] at ha
+    simp only [List.mem_cons] at ha
+    rcases ha with rfl | ha
+    · exact ⟨f, h, Nat.le_refl _⟩
+    · exact hg _ _ _ _ h a ha
+
+theorem seqA_cases (a : ARes) (k : Nat → Bool → ARes) :
+    (∃ e, a.fin = some e ∧ a.out = .ret ∧ seqA a k = { k e a.closed with tasks := a.tasks ++ (k e a.closed).tasks }) ∨
+    seqA a k = a := by
+  unfold seqA
+  split
+  · rename_i e hfe hout; exact Or.inl ⟨e, hfe, hout, rfl⟩
+  · exact Or.inr rfl
+
+theorem seqA_finGe (a : AFun) (k : Nat → Option Nat → Bool → ARes) (ha : FinGeA a) (hk : FinGeA k) :
+    FinGeA (fun s ca c => seqA (a s ca c) (fun e c' => k e ca c')) := by
+  intro s ca c f h
+  have h' : (seqA (a s ca c) (fun e c' => k e ca c')).fin = some f := h
+  rcases seqA_cases (a s ca c) (fun e c' => k e ca c') with ⟨e, hfe, _, heq⟩ | heq
+  · rw [heq] at h'
+    have h1 := ha _ _ _ _ hfe
+    have h2 := hk _ _ _ _ h'
+    omega
+  · rw [heq] at h'; exact ha _ _ _ _ h'
+
+theorem seqA_joined (a : AFun) (k : Nat → Option Nat → Bool → ARes) (ha : JoinedA a) (hk : JoinedA k) (hkge : FinGeA k) :
+    JoinedA (fun s ca c => seqA (a s ca c) (fun e c' => k e ca c')) := by
+  intro s ca c f h x hx
+  have h' : (seqA (a s ca c) (fun e c' => k e ca c')).fin = some f := h
+  have hx' : x ∈ (seqA (a s ca c) (fun e c' => k e ca c')).tasks := hx
+  rcases seqA_cases (a s ca c) (fun e c' => k e ca c') with ⟨e, hfe, _, heq⟩ | heq
+  · rw [heq] at h' hx'
+    simp only [List.mem_append] at hx'
+    have hef := hkge _ _ _ _ h'
+    rcases hx' with hx' | hx'
+    · obtain ⟨e', h1, h2⟩ := ha _ _ _ _ hfe x hx'
+      exact ⟨e', h1, Nat.le_trans h2 hef⟩
+    · exact hk _ _ _ _ h' x hx'
+  · rw [heq] at h' hx'
+    exact ha _ _ _ _ h' x hx'
+
+theorem spawnA_finGe (g : AFun) (hg : FinGeA g) : FinGeA (spawnA g) := by
+  intro s ca c f h
+  simp only [spawnA] at h
+  split at h
+  · split at h
+    · exact hg _ _ _ _ h
+    · simp at h; omega
+  · exact hg _ _ _ _ h
+
+theorem runA_finGe (cfg : Cfg) : ∀ prog : Prog, FinGeA (runA cfg prog) := by
+  intro prog
+  induction prog with
+  | ret => intro s ca c f h; simp [runA] at h; omega
+  | raise => intro s ca c f h; simp [runA] at h; omega
+  | hang =>
+    intro s ca c f h
+    unfold runA at h
+    split at h
+    · simp at h; omega
+    · simp at h
+  | work d k ih =>
+    intro s ca c f h
+    unfold runA at h
+    split at h
+    · split at h
+      · simp at h; omega
+      · have := ih _ _ _ _ h; omega
+    · have := ih _ _ _ _ h; omega
+  | call t name body k ihb ihk =>
+    have := seqA_finGe _ _ (waitForA_finGe cfg t name _ ihb) ihk
+    intro s ca c f h
+    exact this s ca c f (by simpa [runA] using h)
+  | spawn body k ihb ihk =>
+    have := seqA_finGe _ _ (spawnA_finGe _ ihb) ihk
+    intro s ca c f h
+    exact this s ca c f (by simpa [runA] using h)
+
+/-- without `spawn`, every task of the tree is a `wait_for` task, and `wait_for` only returns once its
+    task is done -/
+theorem runA_joined (cfg : Cfg) : ∀ prog : Prog, prog.spawnFree = true → JoinedA (runA cfg prog) := by
+  intro prog
+  induction prog with
+  | ret => intro _ s ca c f _ a ha; simp [runA] at ha
+  | raise => intro _ s ca c f _ a ha; simp [runA] at ha
+  | hang =>
+    intro _ s ca c f _ a ha
+    have : (runA cfg .hang s ca c).tasks = [] := by unfold runA; split <;> rfl
+    rw [this] at ha; cases ha
+  | work d k ih =>
+    intro hs s ca c f h a ha
+    simp [Prog.spawnFree] at hs
+    unfold runA at h ha
+    split at h
+    · rename_i C
+      by_cases hc : C ≤ s + d
+      · simp [hc] at ha
+      · simp only [hc, ↓reduceIte] at h ha; exact ih hs _ _ _ _ h a ha
+    · exact ih hs _ _ _ _ h a ha
+  | call t name body k ihb ihk =>
+    intro hs
+    simp [Prog.spawnFree] at hs
+    have := seqA_joined _ _ (waitForA_joined cfg t name _ (ihb hs.1)) (ihk hs.2) (runA_finGe cfg k)
+    intro s ca c f h a ha
+    exact this s ca c f (by simpa [runA] using h) a (by simpa [runA] using ha)
+  | spawn body k _ _ => intro hs; simp [Prog.spawnFree] at hs
+
+/-- a program that arms nothing (and therefore spawns nothing) creates no task -/
+theorem runA_unarmed_tasks (cfg : Cfg) : ∀ (prog : Prog) (s : Nat) (ca : Option Nat) (c : Bool),
+    prog.unarmed = true → (runA cfg prog s ca c).tasks = [] := by
+  intro prog
+  induction prog with
+  | ret => intro s ca c _; rfl
+  | raise => intro s ca c _; rfl
+  | hang => intro s ca c _; unfold runA; split <;> rfl
+  | work d k ih =>
+    intro s ca c hu
+    simp [Prog.unarmed] at hu
+    unfold runA
+    split
+    · split
+      · rfl
+      · exact ih _ _ _ hu
+    · exact ih _ _ _ hu
+  | call t name body k ihb ihk =>
+    intro s ca c hu
+    simp [Prog.unarmed] at hu
+    obtain ⟨⟨ht0, hub⟩, huk⟩ := hu
+    have hp : waitForA cfg t name (runA cfg body) s ca c = runA cfg body s ca c := by simp [waitForA, ht0]
+    simp only [runA, hp]
+    rcases seqA_cases (runA cfg body s ca c) (fun e c' => runA cfg k e ca c') with ⟨e, _, _, heq⟩ | heq
+    · rw [heq]; simp [ihb s ca c hub, ihk _ _ _ huk]
+    · rw [heq]; exact ihb s ca c hub
+  | spawn body k _ _ => intro s ca c hu; simp [Prog.unarmed] at hu
 
 end Scrapli.Timeout
